@@ -3,6 +3,7 @@
   reply per line.  Imports models and specs only (no Mathlib, no proofs).
 -/
 import JinjaV.Wire.LRU
+import JinjaV.Wire.Loop
 
 open JinjaV
 
@@ -13,6 +14,7 @@ def dispatch (line : String) : Sx :=
     | "ping" => Sx.ok (.list args)
     | "lru" => Wire.LRU.handle args
     | "lru-lin" => Wire.LRU.handleLin args
+    | "loop" => Wire.Loop.handle args
     | _ => Sx.bad
   | _ => Sx.bad
 
